@@ -180,9 +180,13 @@ def run(tier, replay=None):
     rnd = common.rng("c08")
     hist = gen_histories(rnd, tier)
     lits, meta = [], []
+    wedged = []
     for host, msgs in hist:
-        lits += run_history(host, [m[:4] for m in msgs])
-        meta += [(host,) + m for m in msgs]
+        part = common.guarded(lambda host=host, msgs=msgs: run_history(host, [m[:4] for m in msgs]), repr([(host,) + m[:3] for m in msgs])[:2000], wedged, 120.0)
+        if part is not None:
+            lits += part
+            meta += [(host,) + m for m in msgs]
+    common.report_wedged(report, wedged, proof)
     bad, stats = evaluate(lits, "c08")
     known = {e["id"]: e for e in common.known_findings("C08") if e.get("status") == "open"}
     spec_bad = [(i, m, sc) for i, m, sc in bad if sc >= 30]
